@@ -24,6 +24,9 @@ var solvers = []solverSpec{
 	{"cvc5", func(f string, t, seed int) []string {
 		return []string{"cvc5", fmt.Sprintf("--tlimit=%d", t*1000), fmt.Sprintf("--seed=%d", seed), "--strings-exp", f}
 	}},
+	{"z3-new-ematch", func(f string, t, seed int) []string {
+		return []string{"z3-new", fmt.Sprintf("-T:%d", t), "smt.mbqi=false", fmt.Sprintf("smt.random_seed=%d", seed), f}
+	}},
 	{"z3", func(f string, t, seed int) []string {
 		return []string{"z3", fmt.Sprintf("-T:%d", t), fmt.Sprintf("smt.random_seed=%d", seed), f}
 	}},
